@@ -10,7 +10,7 @@ assert subprocess.run(['git', '-C', '/repo', 'status', '--porcelain'], capture_o
 for sid in ids:
     d = os.path.join(ROOT, 'seeded', sid)
     meta = json.load(open(os.path.join(d, 'meta.json')))
-    props = ['C%02d' % i for i in range(1, 21)] if allp else [meta['breaks_property']]
+    props = ['C%02d' % i for i in range(1, 21)] if allp else [meta['breaks_property']] + list(meta.get('also_check', []))
     out = {}
     try:
         subprocess.run(['git', '-C', '/repo', 'apply', os.path.join(d, 'patch.diff')], check=True)
